@@ -33,6 +33,15 @@ func runC01(e *Env) {
 	ruleDeleg(e, "C01.deleg", "date")
 	ruleNewDeleg(e, "C01.enc")
 	ruleLimitAccept(e, "C01.limit", "date")
+	// C01.fmt takes Bprintf as "append the formatted text to buf": that summary is an obligation of its own —
+	// the bytes handed back are the caller's buffer extended, not storage shared with later calls
+	if fs := funcs(e.Fn("C01.buffer", "date", "DefaultFormatter"), e.Fn("C01.buffer", "internal", "Bprintf")); len(fs) == 2 {
+		e.FlowAs(map[string]string{"C16.append": "C01.buffer", "C16.indep": "C01.buffer"}, func(c *flow.Ctx) {
+			c.RuleAppendOnly(fs...)
+			c.RuleBufIndependent(fs...)
+		})
+	}
+	e.S.Floor("C01.buffer", 4)
 	e.S.Floor("C01.fmt", 8)
 	e.S.Floor("C01.enc", 12)
 	e.S.Floor("C01.lang", 6)
